@@ -64,6 +64,12 @@ func call(o op) int {
 		return lib.Count(strconv.Itoa(o.arg))
 	case 8:
 		return lib.Lazy()
+	case 9:
+		return lib.SelectMerge(o.arg)
+	case 10:
+		return lib.NonBlocking(o.arg)
+	case 11:
+		return lib.Quit(o.arg)
 	// defective
 	case 20:
 		return lib.RacyCounter()
@@ -77,6 +83,8 @@ func call(o op) int {
 		return lib.Coalesce(o.arg)
 	case 25:
 		return lib.FirstError([]int{3, -1, 4, -2, 5, -3})
+	case 26:
+		return lib.FoundOrDone(o.arg)
 	}
 	panic("bad fn")
 }
@@ -97,6 +105,14 @@ func want(fn, arg int) int {
 		return len(strconv.Itoa(arg))
 	case 8:
 		return 45
+	case 9:
+		return 11 * arg * (arg + 1) / 2
+	case 10:
+		return arg
+	case 11:
+		return arg * (arg + 1) / 2
+	case 26:
+		return 1
 	case 20:
 		return 1
 	case 21:
@@ -155,7 +171,7 @@ func main() {
 			for j := 0; j < k; j++ {
 				var o op
 				if mode == "ok" {
-					o.fn = r.n(9)
+					o.fn = r.n(12)
 					o.arg = 1 + r.n(7)
 				} else {
 					o.fn = *name
